@@ -15,12 +15,13 @@ import (
 )
 
 type c12Case struct {
-	Mode  string `json:"mode"` // program (slice;...;concat;repair), table (arbitrary table straight into Repair)
-	L     int    `json:"len"`
-	Cuts  []int  `json:"cuts,omitempty"`
-	Feats []Feat `json:"feats"`
-	Pre   []int  `json:"pre,omitempty"`  // cli: other records before the record in the stream handed to `gts repair` ...
-	Post  []int  `json:"post,omitempty"` // ... and after it
+	Mode  string   `json:"mode"` // program (slice;...;concat;repair), table (arbitrary table straight into Repair)
+	L     int      `json:"len"`
+	Cuts  []int    `json:"cuts,omitempty"`
+	Feats []Feat   `json:"feats"`
+	Texts []string `json:"texts,omitempty"` // mode texts: one class whose locations are read from these texts (values the parser accepts and no constructor builds: empty and backward ranges)
+	Pre   []int    `json:"pre,omitempty"`   // cli: other records before the record in the stream handed to `gts repair` ...
+	Post  []int    `json:"post,omitempty"`  // ... and after it
 }
 
 type c12Feature struct {
@@ -229,9 +230,43 @@ func c12Cli(c c12Case) *Violation {
 	return nil
 }
 
+// c12Texts: Repair on one class whose locations come from the location parser as they are - among them ranges that
+// hold no residue ("11..10": start behind end by one, as the text form of an empty range is), which a file may contain
+// and no constructor builds (ranges that run backwards by more are left out: nothing says what they denote). The
+// harness has no model for what such values denote; what is asked is what the statement asks of every table: no
+// panic, and repairing twice gives what repairing once gave.
+func c12Texts(c c12Case) *Violation {
+	var table gts.FeatureSlice
+	for _, tx := range c.Texts {
+		loc, err := gts.AsLocation(tx)
+		if err != nil || loc == nil {
+			skipCase("text-not-a-location")
+			return nil
+		}
+		table = append(table, gts.NewFeature("misc_feature", loc, gts.Props{{"note", "r"}}))
+	}
+	var once, twice []gts.Feature
+	if pi := guard(func() { once = gts.Repair(table) }); pi != nil {
+		return panicViolation(fmt.Sprintf("Repair of a class with the locations %q", c.Texts), pi)
+	}
+	if pi := guard(func() { twice = gts.Repair(once) }); pi != nil {
+		return panicViolation(fmt.Sprintf("Repair(Repair(t)) for the locations %q", c.Texts), pi)
+	}
+	if featuresString(once) != featuresString(twice) {
+		return viol("idempotence", "Repair of the locations %q gives %s, repairing again gives %s", c.Texts, featuresString(once), featuresString(twice))
+	}
+	if len(once) > len(table) {
+		return viol("invented", "Repair of %d features (%q) returns %d", len(table), c.Texts, len(once))
+	}
+	return nil
+}
+
 func c12Check(c c12Case) *Violation {
 	if c.Mode == "cli" {
 		return c12Cli(c)
+	}
+	if c.Mode == "texts" {
+		return c12Texts(c)
 	}
 	table, v := c12Input(c)
 	if v != nil {
@@ -627,6 +662,24 @@ func TestC12(t *testing.T) {
 	if t.Failed() {
 		return
 	}
+	// locations as the parser hands them over: every pair and triple from a list that holds empty and backward ranges
+	etx := enumPart(t, c12Prop, st, "parsed-degenerate-ranges")
+	{
+		texts := []string{"11..10", "11..>10", "<11..10", "<11..>10", "<11..20", "1..>10", "<21..30", "10..11", "5..5", "5..>5", "<6..6", "complement(11..>10)", "complement(<11..10)", "join(1..>10,11..10)", "10^11", "11"}
+		for _, a := range texts {
+			for _, b := range texts {
+				if !etx.try(c12Case{Mode: "texts", L: 30, Texts: []string{a, b}}) {
+					return
+				}
+				for _, c3 := range texts {
+					if !etx.try(c12Case{Mode: "texts", L: 30, Texts: []string{a, b, c3}}) {
+						return
+					}
+				}
+			}
+		}
+	}
+	etx.done(true)
 	// crowded twins: a class of 14..45 members (beyond the size up to which sort routines are stable) that holds two
 	// ranges the location order cannot tell apart (same span, one 5'-partial, one 3'-partial), a fragment that abuts
 	// one of them, a pair that joins in the first pass, and fillers elsewhere; the table in many rotations of its order
